@@ -981,8 +981,27 @@ pub fn execute(h: &History) -> Trace {
                         match vs.len() % 3 {
                             1 => b.write_payloads(items.filter(|_| true)),
                             2 => {
+                                // ... and not fused: once it has said None it would go on with other items if asked again (a
+                                // channel drained with try_iter, a closure). The batch ends at the first None.
                                 let mut it = items;
-                                b.write_payloads(std::iter::from_fn(move || it.next()))
+                                let mut ended = false;
+                                let mut extra = 40;
+                                let junk = Val::Int { ty: 0, image: 0xEE };
+                                let junk_ref: &Val = &junk;
+                                b.write_payloads(std::iter::from_fn(move || {
+                                    if ended {
+                                        if extra == 0 {
+                                            return None;
+                                        }
+                                        extra -= 1;
+                                        return Some(AnyP(junk_ref, &[]));
+                                    }
+                                    let x = it.next();
+                                    if x.is_none() {
+                                        ended = true;
+                                    }
+                                    x
+                                }))
                             }
                             _ => b.write_payloads(items),
                         }
